@@ -216,7 +216,7 @@ def synthetic_spec(draw, nmax=120, families=("power", "power1", "kinked", "realg
     spec = dict(g)
     spec["mu0"] = draw(st.floats(0.005, 0.5))
     spec["p0"] = draw(st.sampled_from([1000.0, 100.0])) if draw(st.booleans()) else draw(st.floats(50.0, 5000.0))
-    spec["rho0"] = draw(st.sampled_from([1.0, 1.0, 3.7e-3]))
+    spec["rho0"] = draw(st.sampled_from([1.0, 1.0, 3.7e-3, 62.4, 1e3, 1e-6]))  # density unit: recovery is a ratio
     if fam in ("power", "power1"):
         spec["family"] = "power"
         spec["k"] = 1.0 if fam == "power1" else draw(st.one_of(st.floats(0.2, 0.95), st.floats(1.05, 1.8)))
